@@ -261,6 +261,8 @@ def prog_case(rng, kind, rom=None, features=None, n_stmts=None, spec=None, trace
     g = progen.Gen(rng, rom=rom, features=features)
     tree = g.program(n_stmts)
     c = {"kind": kind, "rom": rom, "src": progen.render(tree) + "\n", "tree_kinds": progen.count_kinds(tree)}
+    if g.files:
+        c["files"] = dict(g.files)
     if spec:
         c["spec"] = spec
     if trace:
